@@ -171,7 +171,8 @@ def main(run):
         caught.append(m)
     run.add(spec_mutants_caught=caught)
     grid = [('shared', None, None), ('mixed', {'name': 'chacha20_poly1305'}, {'name': 'sha2', 'bits': 256}), ('clone', {'name': 'aes_gcm', 'key_bits': 128}, {'name': 'sha3', 'bits': 512}),
-            ('indep', {'name': 'aes_gcm', 'key_bits': 192}, {'name': 'blake2b', 'length': 32}), ('same', None, {'name': 'sha2', 'bits': 512})]
+            ('indep', {'name': 'aes_gcm', 'key_bits': 192}, {'name': 'blake2b', 'length': 32}), ('same', None, {'name': 'sha2', 'bits': 512}),
+            ('chain', {'name': 'aes_gcm', 'nonce_bits': 128}, None), ('shared', {'name': 'aes_gcm', 'key_bits': 128, 'nonce_bits': 64}, {'name': 'blake2b', 'length': 20})]
     traces = []
     for i, (g, cipher, hashing) in enumerate(grid):
         for rep in range(1 if quick else 8):
